@@ -587,9 +587,10 @@ func decodeKeyCharByUnicodeRuneStream(s *Stream) ([]byte, error) {
 	return []byte(string(r)), nil
 }
 
+// decodeKeyCharByEscapeCharStream decodes the escape whose character is at
+// s.cursor and leaves s.cursor on the last byte it consumed.
 func decodeKeyCharByEscapeCharStream(s *Stream) ([]byte, error) {
 	c := s.buf[s.cursor]
-	s.cursor++
 RETRY:
 	switch c {
 	case '"':
@@ -609,11 +610,14 @@ RETRY:
 	case 't':
 		return []byte{'\t'}, nil
 	case 'u':
+		s.cursor++
 		return decodeKeyCharByUnicodeRuneStream(s)
 	case nul:
+		// the escape character has not been read yet
 		if !s.read() {
-			return nil, errors.ErrInvalidCharacter(s.char(), "escaped char", s.totalOffset())
+			return nil, errors.ErrUnexpectedEndOfJSON("escaped char", s.totalOffset())
 		}
+		c = s.buf[s.cursor]
 		goto RETRY
 	default:
 		return nil, errors.ErrUnexpectedEndOfJSON("struct field", s.totalOffset())
